@@ -13,8 +13,10 @@ import (
 	"fmt"
 	"io"
 	"runtime/debug"
+	"strings"
 	"time"
 
+	"github.com/markkurossi/mpc/ot"
 	"github.com/markkurossi/mpc/sha2pc"
 
 	"verifsim/sim/rt"
@@ -702,6 +704,32 @@ func (w *world) mutations(t *rt.Tape, trace bool, res *core.Result, smp *sample,
 		}
 		encs := [][]byte{s.M1, s.M2, s.M3, s.GS, s.ES}
 		names := []string{"round1", "round2", "round3", "garbler-session", "evaluator-session"}
+		wantDigest := want(a, b)
+		// where the per-output decoding material sits in the round 3 message: encode the payload with
+		// all-zero and with all-one hints; the encodings differ exactly there (a third of the bit
+		// flips in round 3 go into that field - 8 KiB of 700)
+		hintLo, hintHi := -1, -1
+		{
+			z, f := s.Msg3, s.Msg3
+			z.OutputHints = make([]ot.Wire, len(s.Msg3.OutputHints))
+			f.OutputHints = make([]ot.Wire, len(s.Msg3.OutputHints))
+			ones := ot.Label{D0: ^uint64(0), D1: ^uint64(0)}
+			for i := range f.OutputHints {
+				f.OutputHints[i] = ot.Wire{L0: ones, L1: ones}
+			}
+			zb, err1 := sha2pc.EncodeRound3(z)
+			fb, err2 := sha2pc.EncodeRound3(f)
+			if err1 == nil && err2 == nil && len(zb) == len(s.M3) && len(fb) == len(s.M3) {
+				for i := range zb {
+					if zb[i] != fb[i] {
+						if hintLo < 0 {
+							hintLo = i
+						}
+						hintHi = i + 1
+					}
+				}
+			}
+		}
 		rt.LogBytes('1', s.M1) // the case is part of the run's identity
 		rt.LogBytes('2', s.M2)
 		n := 40 + t.Choose(rt.SFault, 160)
@@ -738,6 +766,9 @@ func (w *world) mutations(t *rt.Tape, trace bool, res *core.Result, smp *sample,
 				off := t.Choose(rt.SFault, len(m))
 				if t.Choose(rt.SFault, 2) == 0 {
 					off = t.Choose(rt.SFault, min(len(m), 64))
+				}
+				if which == 2 && hintLo >= 0 && t.Choose(rt.SFault, 3) == 0 {
+					off = hintLo + t.Choose(rt.SFault, hintHi-hintLo)
 				}
 				m[off] ^= 1 << t.Choose(rt.SFault, 8)
 				desc = fmt.Sprintf("flip byte %d", off)
@@ -776,7 +807,7 @@ func (w *world) mutations(t *rt.Tape, trace bool, res *core.Result, smp *sample,
 				desc = fmt.Sprintf("u32 %#x at %d", v, off)
 				res.Faults["mutation.length-field"]++
 			}
-			follow := t.Choose(rt.SFault, 8) == 0
+			follow := t.Choose(rt.SFault, 8) == 0 || which == 2 && len(m) == len(src) && t.Choose(rt.SFault, 2) == 0
 			err := safe(names[which]+" "+desc, func() error {
 				switch which {
 				case 0:
@@ -821,7 +852,15 @@ func (w *world) mutations(t *rt.Tape, trace bool, res *core.Result, smp *sample,
 						if err != nil {
 							return err
 						}
-						_, err = sha2pc.EvaluatorRound4(curve, es, m3)
+						dg, err := sha2pc.EvaluatorRound4(curve, es, m3)
+						if err == nil && !bytes.Equal(m, src) && dg != wantDigest {
+							// the honest evaluator, given a round 3 message that is not the garbler's, returned a
+							// digest as if the run had succeeded - and it is not SHA-256(a xor b)
+							return fmt.Errorf("WRONG-DIGEST: EvaluatorRound4 accepted a round 3 message altered in transit (%s) and returned %x; SHA-256(a xor b) is %x", desc, dg, wantDigest)
+						}
+						if err == nil {
+							res.Reach["round3.altered-message-harmless (digest still right)"]++
+						}
 						return err
 					}
 					return nil
@@ -855,6 +894,8 @@ func (w *world) mutations(t *rt.Tape, trace bool, res *core.Result, smp *sample,
 			})
 			if isPanic(err) {
 				fail = &core.Failure{Clause: "panic", Detail: fmt.Sprintf("%s (%s, %s): %v", names[which], desc, smp.Curve, err)}
+			} else if err != nil && strings.HasPrefix(err.Error(), "WRONG-DIGEST") {
+				fail = &core.Failure{Clause: "altered-message-accepted-with-wrong-digest", Detail: err.Error()}
 			} else if err != nil && len(err.Error()) > 15 && err.Error()[:15] == "ACCEPTED-LENGTH" {
 				fail = &core.Failure{Clause: "round3-length-not-enforced", Detail: err.Error()}
 			} else if err != nil {
